@@ -33,12 +33,22 @@ def json_case(v, indent):
     except Exception:  # pylint: disable=broad-except
         text = None
     c = {'v': A.aval(v), 'indent': indent or 0, 'isText': isinstance(text, str), 'text': A.cps(text) if isinstance(text, str) else [],
-         'back': {'t': 'null'}, 'std': {'t': 'null'}, 'shown': text if isinstance(text, str) else None}
+         'back': {'t': 'null'}, 'std': {'t': 'null'}, 'fresh': True, 'shown': text if isinstance(text, str) else None}
     if isinstance(text, str):
         try:
             c['back'] = A.aval(SF['jsonParse']([text], None))
         except Exception as exc:  # pylint: disable=broad-except
             c['back'] = {'t': 'alien', 'py': type(exc).__name__}
+        # the result of jsonParse is FRESH: changing it does not change what parsing the same text gives next time
+        try:
+            first = SF['jsonParse']([text], None)
+            if isinstance(first, list):
+                first.append('changed')
+            elif isinstance(first, dict):
+                first['changed'] = 1
+            c['fresh'] = A.aval(SF['jsonParse']([text], None)) == c['back']
+        except Exception:  # pylint: disable=broad-except
+            c['fresh'] = True
         try:
             c['std'] = A.aval(json.loads(text))
         except Exception as exc:  # pylint: disable=broad-except
